@@ -1,8 +1,9 @@
 //! K-view (C19, C04): axis views of real arrays, end to end:
 //! `Array::get_axis` / `iter_axis` / `View::iter` / `Array::sum` against the definition
 //! "elements whose a-th index is i, in row-major order of the remaining axes".
-//! BOUNDED in shape (one concrete shape per harness); axis, position and call history
-//! (calls continued past exhaustion) are covered completely for that shape.
+//! BOUNDED in shape (one concrete shape per harness); every axis (including the first out-of-range
+//! one), every position (including one past the end) and call histories continued 4 calls past
+//! exhaustion are enumerated for that shape.
 //! Also discharges, for these shapes, the contract that the Verus unit V-view *assumes*
 //! for `RemovedAxis<Shape>::elements` (= product of the remaining lengths).
 use crate::array::{Array, Axis, Shape};
@@ -31,100 +32,114 @@ fn expected_view_elem<const D: usize>(shape: &[usize; D], a: usize, i: usize, k:
 fn check_axis_views<const D: usize>(shape: [usize; D]) {
     let n = product(&shape);
     let arr = Array::from_iter(0..n, Shape(shape.to_vec())).unwrap();
-    let a: usize = kani::any();
-    let i: usize = kani::any();
-    let view = arr.get_axis(Axis(a), i);
-    if a >= D || i >= shape[a] {
-        assert!(view.is_none(), "out-of-range axis or position gives None");
-        return;
+    // every axis 0..=D (D is out of range) and every position 0..=len (len is out of range)
+    let mut a = 0;
+    while a <= D {
+        let len = if a < D { shape[a] } else { 1 };
+        let mut i = 0;
+        while i <= len {
+            let view = arr.get_axis(Axis(a), i);
+            if a >= D || i >= shape[a] {
+                assert!(view.is_none(), "out-of-range axis or position gives None");
+            } else {
+                let view = view.unwrap();
+                assert!(view.dimensions() == D - 1, "view has one axis less");
+                let m = n / shape[a];
+                let mut it = view.iter();
+                let mut k = 0;
+                while k < m {
+                    assert!(it.len() == m - k, "view iterator reports the number of items it will still yield");
+                    let x = it.next();
+                    assert!(x.is_some(), "view iterator yields product(remaining lengths) items");
+                    assert!(*x.unwrap() == expected_view_elem(&shape, a, i, k), "k-th item is the element at (a-th index = i), row-major over the rest");
+                    k += 1;
+                }
+                // None forever, remaining length stays 0
+                let mut e = 0;
+                while e < 4 {
+                    assert!(it.len() == 0, "remaining length 0 after the last item");
+                    assert!(it.next().is_none(), "None forever after exhaustion");
+                    e += 1;
+                }
+            }
+            i += 1;
+        }
+        a += 1;
     }
-    let view = view.unwrap();
-    assert!(view.dimensions() == D - 1, "view has one axis less");
-    let m = n / shape[a];
-    let mut it = view.iter();
-    let mut k = 0;
-    while k < m {
-        assert!(it.len() == m - k, "view iterator reports the number of items it will still yield");
-        let x = it.next();
-        assert!(x.is_some(), "view iterator yields product(remaining lengths) items");
-        assert!(*x.unwrap() == expected_view_elem(&shape, a, i, k), "k-th item is the element at (a-th index = i), row-major over the rest");
-        k += 1;
-    }
-    assert!(it.len() == 0, "remaining length 0 after the last item");
-    // None forever
-    let extra: u8 = kani::any();
-    kani::assume(extra <= 4);
-    let mut e = 0;
-    while e < extra {
-        assert!(it.next().is_none(), "None forever after exhaustion");
-        assert!(it.len() == 0, "remaining length stays 0");
-        e += 1;
-    }
-    assert!(it.next().is_none(), "None after exhaustion");
-    kani::cover!(a == D - 1 && i + 1 == shape[a]);
-    kani::cover!(a == 0);
+    // axis far out of range
+    assert!(arr.get_axis(Axis(usize::MAX), 0).is_none(), "axis usize::MAX gives None");
+    assert!(arr.get_axis(Axis(0), usize::MAX).is_none(), "position usize::MAX gives None");
+    kani::cover!(true);
 }
 
 fn check_axis_iter<const D: usize>(shape: [usize; D]) {
     let n = product(&shape);
     let arr = Array::from_iter(0..n, Shape(shape.to_vec())).unwrap();
-    let a: usize = kani::any();
-    kani::assume(a < D);
-    let mut it = arr.iter_axis(Axis(a));
-    let mut i = 0;
-    while i < shape[a] {
-        assert!(it.len() == shape[a] - i, "axis iterator reports remaining positions");
-        let v = it.next();
-        assert!(v.is_some(), "axis iterator yields one view per position");
-        let v = v.unwrap();
-        // the view is the one at position i: compare first element
-        let first = v.iter().next();
-        if n > 0 {
+    let mut a = 0;
+    while a < D {
+        let mut it = arr.iter_axis(Axis(a));
+        let mut i = 0;
+        while i < shape[a] {
+            assert!(it.len() == shape[a] - i, "axis iterator reports remaining positions");
+            let v = it.next();
+            assert!(v.is_some(), "axis iterator yields one view per position");
+            let v = v.unwrap();
+            let first = v.iter().next();
             assert!(*first.unwrap() == expected_view_elem(&shape, a, i, 0), "i-th view starts at position i of the axis");
+            i += 1;
         }
-        i += 1;
+        assert!(it.len() == 0, "axis iterator: remaining 0 at the end");
+        assert!(it.next().is_none(), "axis iterator: None after the last position");
+        assert!(it.next().is_none(), "axis iterator: None forever");
+        assert!(it.len() == 0, "axis iterator: remaining stays 0");
+        a += 1;
     }
-    assert!(it.len() == 0, "axis iterator: remaining 0 at the end");
-    assert!(it.next().is_none(), "axis iterator: None after the last position");
-    assert!(it.next().is_none(), "axis iterator: None forever");
-    assert!(it.len() == 0, "axis iterator: remaining stays 0");
-    kani::cover!(a + 1 == D);
+    // out-of-range axis: no views, remaining length 0, no panic
+    let mut it = arr.iter_axis(Axis(D));
+    assert!(it.len() == 0, "axis iterator on an out-of-range axis has length 0");
+    assert!(it.next().is_none(), "axis iterator on an out-of-range axis yields nothing");
+    kani::cover!(true);
 }
 
-/// Array::sum(axis) = adding the axis views; values are small integers so f64 addition is exact
+/// Array::sum(axis) = adding the axis views (concrete integer-valued cells, see below)
 fn check_sum<const D: usize>(shape: [usize; D]) {
     let n = product(&shape);
+    // concrete integer-valued cells (distinct, so that a wrong pairing of cells changes a sum); f64
+    // addition of small integers is exact.  Symbolic cell values make CBMC bit-blast every addition
+    // (no result in 400 s), and the pairing of cells does not depend on the values.
     let mut data = Vec::with_capacity(n);
     let mut p = 0;
     while p < n {
-        let v: u8 = kani::any();
-        data.push(v as f64);
+        data.push((p * p + 1) as f64);
         p += 1;
     }
     let arr = Array::new(data, Shape(shape.to_vec())).unwrap();
-    let a: usize = kani::any();
-    kani::assume(a < D);
-    let s = arr.sum(Axis(a));
-    assert!(s.dimensions() == D - 1, "sum removes one axis");
-    let m = n / shape[a];
-    assert!(s.elements() == m, "sum has product(remaining lengths) elements");
-    let mut j = 0;
-    while j < D - 1 {
-        let orig = if j < a { j } else { j + 1 };
-        assert!(s.shape()[j] == shape[orig], "remaining axes keep their order and lengths");
-        j += 1;
+    let mut a = 0;
+    while a < D {
+        let s = arr.sum(Axis(a));
+        assert!(s.dimensions() == D - 1, "sum removes one axis");
+        let m = n / shape[a];
+        assert!(s.elements() == m, "sum has product(remaining lengths) elements");
+        let mut j = 0;
+        while j + 1 < D {
+            let orig = if j < a { j } else { j + 1 };
+            assert!(s.shape()[j] == shape[orig], "remaining axes keep their order and lengths");
+            j += 1;
+        }
+        let mut k = 0;
+        while k < m {
+            let mut expect = 0.0f64;
+            let mut i = 0;
+            while i < shape[a] {
+                expect += arr.as_slice()[expected_view_elem(&shape, a, i, k)];
+                i += 1;
+            }
+            assert!(s.as_slice()[k] == expect, "sum[k] is the sum over the removed axis");
+            k += 1;
+        }
+        a += 1;
     }
-    let k: usize = kani::any();
-    kani::assume(k < m);
-    let mut expect = 0.0f64;
-    let mut i = 0;
-    while i < shape[a] {
-        expect += arr.as_slice()[expected_view_elem(&shape, a, i, k)];
-        i += 1;
-    }
-    assert!(s.as_slice()[k] == expect, "sum[k] is the sum over the removed axis");
-    kani::cover!(a == 0);
-    kani::cover!(a + 1 == D);
+    kani::cover!(true);
 }
 
 macro_rules! on_shape {
@@ -137,19 +152,19 @@ macro_rules! on_shape {
     };
 }
 
-on_shape!(k_view_axis_views_3, 8, check_axis_views([3]));
-on_shape!(k_view_axis_views_2x3, 8, check_axis_views([2, 3]));
-on_shape!(k_view_axis_views_2x1, 8, check_axis_views([2, 1]));
-on_shape!(k_view_axis_views_2x3x2, 9, check_axis_views([2, 3, 2]));
-on_shape!(k_view_axis_views_3x1x2, 9, check_axis_views([3, 1, 2]));
-on_shape!(k_view_axis_views_2x1x2x3, 14, check_axis_views([2, 1, 2, 3]));
+on_shape!(k_view_axis_views_3, 40, check_axis_views([3]));
+on_shape!(k_view_axis_views_2x3, 40, check_axis_views([2, 3]));
+on_shape!(k_view_axis_views_2x1, 40, check_axis_views([2, 1]));
+on_shape!(k_view_axis_views_2x3x2, 40, check_axis_views([2, 3, 2]));
+on_shape!(k_view_axis_views_3x1x2, 40, check_axis_views([3, 1, 2]));
+on_shape!(k_view_axis_views_2x1x2x3, 40, check_axis_views([2, 1, 2, 3]));
 
-on_shape!(k_view_axis_iter_2x3x2, 9, check_axis_iter([2, 3, 2]));
-on_shape!(k_view_axis_iter_4, 9, check_axis_iter([4]));
+on_shape!(k_view_axis_iter_2x3x2, 40, check_axis_iter([2, 3, 2]));
+on_shape!(k_view_axis_iter_4, 40, check_axis_iter([4]));
 
-on_shape!(k_view_sum_3, 8, check_sum([3]));
-on_shape!(k_view_sum_2x3, 8, check_sum([2, 3]));
-on_shape!(k_view_sum_3x2x2, 14, check_sum([3, 2, 2]));
-on_shape!(k_view_sum_2x1x3, 8, check_sum([2, 1, 3]));
+on_shape!(k_view_sum_3, 40, check_sum([3]));
+on_shape!(k_view_sum_2x3, 40, check_sum([2, 3]));
+on_shape!(k_view_sum_3x2x2, 40, check_sum([3, 2, 2]));
+on_shape!(k_view_sum_2x1x3, 40, check_sum([2, 1, 3]));
 
 playback_tests!("view");
